@@ -370,7 +370,10 @@ def seeded_states(uname, deep_only=True, in_wbs=(True,), max_links=1):
                 try:
                     for i in range(U.n):
                         if par[i] is None:
-                            if inw:
+                            if inw == 'split':
+                                # universes with two WBSs (equal ids in different trees): roots go to W0 and W1 in turn
+                                op = ('append', ('W', sum(1 for j in range(i) if par[j] is None) % U.m), i)
+                            elif inw:
                                 op = ('append', ('W', 0), i)
                             else:
                                 continue
